@@ -16,8 +16,10 @@ type gen struct {
 	kind   map[string]byte // path → 'f' file, 'd' dir, 'l' symlink
 	names  []string
 	nextID int
-	listed map[int]map[string]bool // watcher → spellings believed listed
-	fdOpen map[int]string
+	// hash-colliding sibling names (shape 6): pair in hand, which half comes next
+	collPair, collHalf int
+	listed             map[int]map[string]bool // watcher → spellings believed listed
+	fdOpen             map[int]string
 }
 
 func newGen(seed uint64) *gen {
@@ -88,6 +90,27 @@ func (g *gen) freshName(shape int) string {
 	case 4: // multi-byte UTF-8
 		u := []string{"é", "ü", "日本", "😀", "ж", "한"}
 		return u[g.r.Intn(len(u))] + id + u[g.r.Intn(len(u))]
+	case 6: // siblings whose names collide under a common 32-bit string hash (seed C02-i:
+		// an interning table keyed by FNV-1a of the entry name); the two halves of a
+		// pair are handed out one after the other
+		pairs := [][2]string{
+			{"hbrfrhiuk", "hbkqadawv"}, {"hpyxhtedr", "hgpmqvaiy"}, // FNV-1a 32
+			{"liquid", "costarring"}, {"altarage", "zinke"}, // FNV-1a 32, dictionary words
+			{"heeovvasc", "hjdalkbwg"}, {"hiutseikk", "hgrjhclla"}, // FNV-1 32
+			{"hzizxvlxq", "hxoequnzk"}, {"huofuowix", "htkrjvbzd"}, // CRC-32 (IEEE)
+			{"haca", "hbab"},   // Adler-32
+			{"haar", "hac0"},   // djb2 (h*33+c)
+			{"haan", "hac0"},   // Java's h*31+c
+			{"hd4ot", "hd4s0"}, // Jenkins one-at-a-time
+		}
+		g.nextID-- // these names carry no counter
+		if g.collHalf == 1 {
+			g.collHalf = 0
+			return pairs[g.collPair][1]
+		}
+		g.collPair = g.r.Intn(len(pairs))
+		g.collHalf = 1
+		return pairs[g.collPair][0]
 	default: // shares a prefix with siblings
 		return "dir1" + strings.Repeat("0", g.r.Intn(3))
 	}
